@@ -8,8 +8,17 @@ from ..gen import J
 PROP = "C01"
 MONITORS = ("WF", "SPEC")
 REQUIRED_MONITORS = ("WF",)
-ANCHORS = [("factor.py", 156, 226), ("factor.py", 365, 466), ("factor.py", 533, 611),
-           ("factor.py", 673, 753), ("measure.py", 124, 191), ("factor.py", 79, 124)]
+ANCHORS = [("factor.py", "ConjugateFactor._multiply_with_measure"),
+           ("factor.py", "ConjugateFactor._hadamard_with_measure"),
+           ("factor.py", "OneRankFactor._multiply_with_measure"),
+           ("factor.py", "OneRankFactor._hadamard_with_measure"),
+           ("factor.py", "LinearFactor._multiply_with_measure"),
+           ("factor.py", "LinearFactor._hadamard_with_measure"),
+           ("factor.py", "ConstantFactor._multiply_with_measure"),
+           ("factor.py", "ConstantFactor._hadamard_with_measure"),
+           ("measure.py", "GaussianMeasure.__mul__"), ("measure.py", "GaussianMeasure.multiply"),
+           ("measure.py", "GaussianMeasure.hadamard"), ("measure.py", "GaussianMeasure.product"),
+           ("factor.py", "ConjugateFactor.product"), ("factor.py", "ConjugateFactor.evaluate_ln")]
 RULE = ("cell = (measure kind, factor kind, op in {multiply, *, hadamard, product}, update_full, "
         "cache state, R1, R2, D); full cross product over the catalogue, values seeded per cell; "
         "non-trivial: R1*R2 > 1 or D > 1; each evaluation compares evaluate_ln of the result at 6 "
